@@ -71,8 +71,9 @@ PARTIALS = [
 ]
 # the default coupling must not be degenerate (1*exp(0i) == 1+0i would hide a polar/cartesian mix-up)
 COUPLINGS = [("0.5", "2.0"), ("1.0", "0.0"), ("0.36", "-1.99"), ("2", "3.14159"), ("0", "1"), ("-2.6", "0.5"), ("1e-1", "-3E-1"), ("0.7", "5.5"), ("1.2", "-4.0")]
-PARAMS = [["D0_radius", "2", "0.0037559", "0"], ["IS_p1_pipi", "2", "0.22889", "0"], ["f_scatt1", "0", "-0.5", "1e-2"], ["s0_prod", "2", "-0.07", "0"]]
-CONSTS = [["a(1)(1260)+::Spline::Min", "0.18412"], ["a(1)(1260)+::Spline::N", "40"], ["K(1)(1270)bar-::Spline::Max", "3"]]
+# rows 2 and 4 of each table carry the same numbers as an earlier row (every line is a row of its own)
+PARAMS = [["D0_radius", "2", "0.0037559", "0"], ["IS_p1_pipi", "2", "0.0037559", "0"], ["f_scatt1", "0", "-0.5", "1e-2"], ["s0_prod", "0", "-0.5", "1e-2"]]
+CONSTS = [["a(1)(1260)+::Spline::Min", "0.18412"], ["a(1)(1260)+::Spline::N", "40"], ["K(1)(1270)bar-::Spline::N", "40"]]
 
 
 def gen(c):
